@@ -3,6 +3,8 @@ import Proofs.C15.Text
 import Proofs.C15.Sound
 import Proofs.C15.OpsCount
 import Proofs.C15.SatCond
+import Proofs.C15.Accept
+import Proofs.C15.SatSound
 import Model.C15.Decode
 /-!
 # C15 — miniscript typing, compilation, read-back and satisfaction are consistent
@@ -104,12 +106,14 @@ theorem compiled_script_is_ops (ctx : Ctx) (h160 : Bytes → Bytes) (n : Ms) (ve
 /-- T6: the static op count of the bounds analysis (`_static_ops`: the `_LEAF_OPS` rows, `_OVERHEAD`,
     one OP_ADD per thresh() argument, the folded VERIFY) is exactly the number of op codes above
     OP_16 in the compiled script — what BIP141 counts before any OP_CHECKMULTISIG key — for EVERY
-    expression, both dialects, both VERIFY states. -/
+    expression, both dialects, both VERIFY states.  (Counted on the instruction list `opsOf`, which
+    `compiled_script_is_ops` proves serializes to the compiled bytes.) -/
 theorem static_ops_eq_script_ops (ctx : Ctx) (h160 : Bytes → Bytes) (n : Ms) (verify : Bool) :
     countNP (opsOf ctx h160 verify n) = (info ctx n).staticOps :=
   countNP_opsOf ctx h160 n verify
 
-/-- bounds soundness (static part): whenever `max_ops` is defined it is at least the number of op
+/-- (immediate from the definition `max_ops = static + ops.sat` and T6; recorded because the
+    acceptance theorem uses it.)  Whenever `max_ops` is defined it is at least the number of op
     codes above OP_16 in the script — every one of which BIP141 counts, executed or not — for EVERY
     expression (the keys of an executed OP_CHECKMULTISIG are the `_ops.sat` summand on top). -/
 theorem max_ops_ge_script_ops (ctx : Ctx) (h160 : Bytes → Bytes) (n : Ms) (verify : Bool) (m : Nat)
@@ -153,26 +157,57 @@ theorem stack_arity_partial (E : EvalEnv) (ctx : Ctx) (n : Ms) (h : s1Typed ctx 
   · exact (len_s1 E ctx n h).1 s hs
   · exact (len_s1 E ctx n h).2 s hs
 
-/-- T4_partial (validity half, for the tables rather than the chooser): a top-level "B" of S1 run
-    on any stack its satisfaction table lists ends with exactly the true value on the stack
-    (accepted), and on any listed dissatisfaction with the empty vector (refused). -/
+/-- T4_partial (validity half, for the tables rather than the chooser): for a top-level "B" of S1
+    that `is_within_resource_limits` and has a static op bound (`max_ops` is not None), the
+    interpreter ACCEPTS the compiled script on any stack its satisfaction table lists whose elements
+    are at most 520 bytes and 1000 in number: the 201-op and script-size limits hold (P2WSH), every
+    conditional is closed and exactly the true value is left; and it REFUSES every listed
+    dissatisfaction.  `accepts` (Model/C15/Eval.lean) is the limit-checked verdict the `exec` stream
+    compares with btclib's engine on accepted AND refused witnesses; it does not model the
+    1000-element bound on the stack during execution. -/
 theorem satisfaction_accepted_partial (E : EvalEnv) (hsig0 : ∀ k, E.sigOK k [] = false)
-    (ctx : Ctx) (h160 : Bytes → Bytes) (hH : ∀ k, E.hashF .hash160 k = h160 k) (n : Ms)
-    (h : s1Typed ctx n = true) (hB : (typeOf ctx n).B = true) (s : List Bytes) :
-    (Sat E n s → exec E (opsOf ctx h160 false n) ⟨s, [], []⟩ = some ⟨[[1]], [], []⟩) ∧
-    (Dsat E n s → exec E (opsOf ctx h160 false n) ⟨s, [], []⟩ = some ⟨[[]], [], []⟩) := by
-  obtain ⟨bs, bd, _⟩ := (sound_s1 E ctx h160 hsig0 hH n h).1 hB
-  constructor
-  · intro hs; simpa using bs s [] [] [] rfl hs
-  · intro hs; simpa using bd s [] [] [] rfl hs
+    (ctx : Ctx) (h160 : Bytes → Bytes) (hH : ∀ k, E.hashF .hash160 k = h160 k)
+    (hh : ∀ b, (h160 b).length = 20) (n : Ms) (h : s1Typed ctx n = true)
+    (hshape : shaped ctx n = true) (hB : (typeOf ctx n).B = true)
+    (hlim : withinLimits ctx n = true) (hops : (maxOps ctx n).isSome = true) (s : List Bytes) :
+    (Sat E n s → (∀ e ∈ s, e.length ≤ 520) → s.length ≤ MAX_STACK_SIZE →
+      accepts E ctx (opsOf ctx h160 false n) s = true) ∧
+    (Dsat E n s → accepts E ctx (opsOf ctx h160 false n) s = false) :=
+  ⟨fun hs h520 h1000 => accepts_of_sat E hsig0 ctx h160 hH hh n h hshape hB hlim hops s hs h520 h1000,
+   fun hs => rejects_of_dsat E hsig0 ctx h160 hH n h hB s hs⟩
+
+/-- T4_partial (the chooser): `satisfy ⊆ Sat` and acceptance.  In an environment where the offered
+    signatures verify and the offered preimages hash to their digests (`EnvOK`), and no digest of the
+    expression is the hash of 32 zero bytes (`zeroOK`: the satisfier's hash dissatisfaction), whatever
+    the modelled `satisfy` (`_computed_input`, `_better`; tied by the `sat` stream) returns for an
+    expression of S1 is a listed satisfaction; hence, for a typed top-level "B" that
+    `is_within_resource_limits` with `max_ops` defined, the interpreter ACCEPTS the compiled script on
+    it (`accepts`: T3's run plus the op-count, script-size, element-size and element-count limits).
+    The sizes of the witness (≤ 520 bytes an element, ≤ 1000 elements) are hypotheses: that they
+    follow from `max_witness_size` / `max_stack_items` is NOT proved. -/
+theorem satisfy_accepted_partial (E : EvalEnv) (hsig0 : ∀ k, E.sigOK k [] = false) (ctx : Ctx)
+    (env : SatEnv) (hE : EnvOK E ctx env) (h160 : Bytes → Bytes)
+    (hH : ∀ k, E.hashF .hash160 k = h160 k) (hh : ∀ b, (h160 b).length = 20) (n : Ms)
+    (h : s1Typed ctx n = true) (hshape : shaped ctx n = true) (hB : (typeOf ctx n).B = true)
+    (hlim : withinLimits ctx n = true) (hops : (maxOps ctx n).isSome = true)
+    (hz : zeroOK E n = true) (w : List Bytes) (hsat : satisfy ctx env n = .ok w)
+    (h520 : ∀ e ∈ w, e.length ≤ 520) (h1000 : w.length ≤ MAX_STACK_SIZE) :
+    Sat E n w.reverse ∧ accepts E ctx (opsOf ctx h160 false n) w.reverse = true := by
+  have hS := satisfy_in_Sat E ctx env hE n (inS1_of_s1Typed ctx n h) hz w hsat
+  exact ⟨hS, accepts_of_sat E hsig0 ctx h160 hH hh n h hshape hB hlim hops _ hS
+    (by intro e he; exact h520 e (List.mem_reverse.mp he)) (by simpa using h1000)⟩
 
 /-- T4 (refusal half), about the model of the satisfier itself (`Model/C15/Satisfy.lean`:
     `_computed_input`, `_better`, `satisfy`, tied by the `sat` stream): when the spending condition
     is false for what is available — no signature offered for a key, no preimage, a lock time the
     transaction does not meet, combined by the expression's and/or/andor structure — `satisfy`
-    refuses with "no satisfaction", for EVERY expression and both dialects.  (`cond` answers
-    "possibly true" for multi, multi_a and thresh: quorums are not covered yet.) -/
-theorem satisfy_refuses_when_condition_false (ctx : Ctx) (env : SatEnv) (n : Ms)
+    refuses with "no satisfaction", both dialects.  PARTIAL: `cond` answers "possibly true" for
+    multi, multi_a and thresh, so nothing is claimed of an expression whose falsity depends on a
+    quorum (a quorum under an `or`, or alone); and the leaf conditions for lock times are the
+    satisfier's own `_older`/`_after` (modelled, tied by the `sat` stream), not an independent
+    reading of BIP65/BIP68 — the independent reading is the harness's `condition` in the `spend`
+    oracle. -/
+theorem satisfy_refuses_when_condition_false_partial (ctx : Ctx) (env : SatEnv) (n : Ms)
     (h : cond ctx env n = false) : satisfy ctx env n = .error .none :=
   satisfy_none_of_cond_false ctx env n h
 
